@@ -1568,6 +1568,7 @@ func (mgr *Manager) convertStreamJob(allConverters []*converters.CachedConverter
 				if tag.features.MainFeatures&query.FeatureFilterData == 0 && tag.features.SubQueryFeatures&query.FeatureFilterData == 0 {
 					continue
 				}
+				tag.Uncertain = tag.Uncertain.Copy()
 				tag.Uncertain.Or(*allStreamIDs[i])
 			}
 			mgr.updatedStreamsDuringTaggingJob.Or(*allStreamIDs[i])
